@@ -28,6 +28,7 @@ Expression grammar (nested tuples):
 import re
 
 MAX_DEPTH = 40
+CONST_BODIES = {}     # name -> MIR body of non-scalar named constants (filled when the facts are loaded)
 
 # calls that return (a view of) their first argument unchanged -- looked through
 TRANSPARENT = [
@@ -141,7 +142,17 @@ class Ex:
             return ("fn", op["fn"])
         if "name" in op:
             v = op.get("v")
-            return ("named", op["name"], int(v) if v is not None else op.get("str"))
+            if v is not None:
+                # a named scalar constant denotes its value: rules must not care whether a literal got a name
+                return ("const", op["ty"], int(v))
+            if op.get("str") is not None:
+                return ("named", op["name"], op.get("str"))
+            body = CONST_BODIES.get(op["name"])
+            if body is not None:
+                ce = self._const_body(op["name"], body)
+                if ce is not None:
+                    return ce
+            return ("named", op["name"], None)
         if "v" in op:
             return ("const", op["ty"], int(op["v"]))
         if "str" in op:
@@ -154,6 +165,24 @@ class Ex:
                 return pe
             return ("const", op["ty"], "promoted%s" % op["promoted"])
         return ("const", op["ty"], None)
+
+    def _const_body(self, name, body):
+        if getattr(self, "_in_prom", False):
+            return None
+        key = ("cbody", name)
+        if key in self._memo:
+            return self._memo[key]
+        from .mir import Fn
+        raw = dict(path=name, kind="Const", blocks=body["blocks"], locals=body["locals"], arg_count=0, span=self.fn.span, name=None, vis=None,
+                   impl_self=None, impl_trait=None, promoted=[])
+        pf = Fn(raw)
+        ex = Ex(pf)
+        ex._in_prom = True
+        out = None
+        for b in pf.exits():
+            out = ex.local(0, (b, None))
+        self._memo[key] = out
+        return out
 
     def _promoted(self, n):
         """value of a promoted constant of this function, reconstructed from its own tiny MIR body"""
